@@ -114,6 +114,17 @@ def exact_stream(ctx):
                      'a zero inner product must give nu = 1', {'kl': str(kl), 'lr': str(lr), 'sum_inner': str(tot)}, 'scale-raised')
             del lines[len(pend):]
             continue
+        # statement oracle on the same hand-set data: nu = min(1, sqrt(kl / |Σ<V,D> lr²|)), 1 when the product is 0,
+        # hence nu² lr² |Σ<V,D>| ≤ kl — also when the inner product is negative
+        sabs = abs(tot * lr * lr)
+        want_nu = 1.0 if sabs == 0 else min(1.0, (float(kl) / float(sabs)) ** 0.5)
+        if abs(scale - want_nu) > 1e-12 * want_nu or Fraction(scale) ** 2 * sabs > kl * (1 + Fraction(1, 10**9)):
+            ctx.fail(f'_compute_grad_scale() = {scale} but min(1, sqrt(kl_clip/|Σ<V,D> lr²|)) = {want_nu} '
+                     f'(kl_clip={kl}, lr={lr}, Σ<V,D>={tot}); bound nu² lr² |Σ<V,D>| ≤ kl_clip '
+                     f'{"violated" if Fraction(scale) ** 2 * sabs > kl else "kept"}',
+                     {'kl': str(kl), 'lr': str(lr), 'sum_inner': str(tot), 'scale': scale,
+                      'layers': [{'V': lay.grad.tolist(), 'D': lay.module.get_grad().tolist()} for _, lay in p._layers.values()]},
+                     'nu-formula')
         lines.append(f'alg f=nusq kl={kl.numerator}/{kl.denominator} lr={lr.numerator}/{lr.denominator} s={tot.numerator}/{tot.denominator}')
         pend.append(({'stream': 'nusq', 'kl': str(kl), 'lr': str(lr), 'sum_inner': str(tot)}, None, scale))
         ctx.case(lines[-1], nontrivial=True, sample={'kl': str(kl), 'lr': str(lr), 'sum_inner': str(tot), 'scale': scale})
@@ -172,6 +183,18 @@ def run(ctx):
         cfg.hyper['kl_clip'] = rng.choice([Fraction(1, 10**5), None, [Fraction(1, 100), None, Fraction(1, 10**4)]])
         cfg.hyper['lr'] = rng.choice([Fraction(1, 10), Fraction(0), [Fraction(0), Fraction(1, 2)]])
         cfg.ops = (['f1'] * cfg.accum + ['s']) * rng.randrange(1, 4)
+        cfgs.append(cfg)
+    # histories mixing unclipped (kl_clip=None or nu=1) and clipped steps, gradient tensors kept alive between
+    # iterations, layers without bias (whose gradient is installed as a view): one scalar on every rank, each step
+    for _ in range(ctx.budget(24, 240)):
+        cfg = kfacsim.Config(rng, world=rng.choice([2, 2, 4, 3]))
+        cfg.keepgrad = True
+        if rng.random() < 0.7:
+            cfg.arch = [tuple(list(a[:-1]) + [False]) if a[0] in ('lin', 'conv') else a for a in cfg.arch]
+        nsteps = rng.randrange(2, 5)
+        cfg.hyper['kl_clip'] = [rng.choice([None, Fraction(10**6), Fraction(1, 10**5), Fraction(1, 10**3)]) for _ in range(nsteps)]
+        cfg.hyper['lr'] = Fraction(1, 10)
+        cfg.ops = (['f1'] * cfg.accum + ['s']) * nsteps
         cfgs.append(cfg)
     kfacsim.run_batch(ctx, cfgs, ('grads', 'ranks'), oracles=(kfacsim.oracle_reference,), whole_only_oracles=False)
 
